@@ -188,15 +188,15 @@ var plans = map[string]*Plan{
 		},
 		CrashSig: rengCrash("C17"),
 	},
-	"C02": ctlPlan("C02", 100, 2500, map[string]int64{"io_write": 300, "replica_images_compared": 100},
+	"C02": withDiskFault(0, 3, ctlPlan("C02", 100, 2500, map[string]int64{"io_write": 300, "replica_images_compared": 100},
 		"controller histories for RF 1..5 (RF = worker index mod 5 + 1): bring-up through register/start/add/file-sync/verify, then 10-40 I/O operations each with a fault assignment (ok, error, applied-then-error, timeout, error with monitor event before/after) per attached replica - enumerated round-robin for <=3 attached replicas, sampled with forced corners above - interleaved with replacement replicas, monitor failures, resizes and range probes; "+
-			"per operation: acknowledged => strictly more than half of the attached replicas applied it, failed replicas detached when the call returns; at quiescent points every attached replica holds every acknowledged write; every tenth case instead runs 2-8 concurrent client goroutines (block reads/writes with unique values, replicas with seeded delays, one replica failing half way) and checks the recorded history with porcupine against a register-per-block model (failed writes stay open); non-trivial = case contains a fault assignment; distinct = hash of (RF, membership state, fault vector) sequence"),
-	"C04": ctlPlan("C04", 100, 2500, map[string]int64{"io_read": 500, "read_sweeps": 100},
+			"per operation: acknowledged => strictly more than half of the attached replicas applied it, failed replicas detached when the call returns; at quiescent points every attached replica holds every acknowledged write; every tenth case instead runs 2-8 concurrent client goroutines (block reads/writes with unique values, replicas with seeded delays, one replica failing half way) and checks the recorded history with porcupine against a register-per-block model (failed writes stay open); non-trivial = case contains a fault assignment; distinct = hash of (RF, membership state, fault vector) sequence")),
+	"C04": withDiskFault(0, 3, ctlPlan("C04", 100, 2500, map[string]int64{"io_read": 500, "read_sweeps": 100},
 		"C02's histories with reads issued at every position of the round-robin cursor after each change (|readers| consecutive reads), read faults on subsets of the RW replicas, WO replicas holding a poison pattern for everything they were not sent; "+
-			"a read may only reach RW replicas, a successful read equals the model of acknowledged writes, a failed reader is detached and another RW replica serves; non-trivial = case contains a fault assignment; distinct as C02"),
-	"C05": withCluster(ctlPlan("C05", 25, 1250, map[string]int64{"io_write": 200, "settled_points": 300, "rebuild_cycles": 1},
+			"a read may only reach RW replicas, a successful read equals the model of acknowledged writes, a failed reader is detached and another RW replica serves; non-trivial = case contains a fault assignment; distinct as C02")),
+	"C05": withDiskFault(2, 6, withCluster(ctlPlan("C05", 25, 1250, map[string]int64{"io_write": 200, "settled_points": 300, "rebuild_cycles": 1},
 		"C02's histories; per operation with failing set F (error, lost reply, timeout, monitor event before/after the I/O, process death): if the survivors form a majority and an RW replica is among them the operation is acknowledged, every failed replica is ERR-or-absent when the call returns and absent once its monitor event was consumed, a detached replica receives no further call; non-trivial = case contains a fault assignment; distinct as C02"),
-		2, 8, 3, "SIGKILL / SIGSTOP of one of three real replica processes under write load must not make any write fail, the replica must leave the controller's list, and it comes back only through a rebuild (log evidence of reload-and-verify)"),
+		2, 8, 3, "SIGKILL / SIGSTOP of one of three real replica processes under write load must not make any write fail, the replica must leave the controller's list, and it comes back only through a rebuild (log evidence of reload-and-verify)")),
 	"C03": ctlPlan("C03", 13, 375, map[string]int64{"settled_points": 300, "mutations_attempted_readonly": 30},
 		"membership walks for RF 1..5: 4-14 changes drawn from add, file-sync+verify, explicit removal, monitor failure (with and without process death), operator set-mode ERR/RW, I/O with fault assignments, duplicate/unknown-address requests, snapshots with a failing replica, late register/start requests, restart and re-add; after every change the state is settled (every triggered monitor event acted upon, state stable) and: ReadOnly == (#RW < RF/2+1), a probe write/flush/unmap is refused without reaching any replica iff read-only, and accepted when a quorum is RW; "+
 			"non-trivial = walk visits >2 distinct (RW,WO,ERR,RO,checkpoint) states or contains faults; distinct = hash of the step/state sequence"),
@@ -321,6 +321,22 @@ func crashClass(c string) string {
 		}
 	}
 	return "other"
+}
+
+// withDiskFault adds the failing-disk scenario on real processes (cluster engine): strace attached to one of three
+// running replica processes makes its pwrite64 / fsync / pread64 calls fail (EIO, ENOSPC, every third call) under load.
+func withDiskFault(qw, tw int, p *Plan) *Plan {
+	inner := p.Jobs
+	p.Rule += "; failing-disk scenario on real processes (cluster engine): strace attaches to one of three running replica processes and makes its pwrite64 / fsync+fdatasync / pread64 calls fail with EIO or ENOSPC (all calls or every third) while 1-3 writers run and the whole volume is read at every reader position: no write and no read may fail or return wrong data, a replica whose write calls failed must be detached, the directory it leaves must reopen, and after the pod is recycled it is rebuilt and compared as in C07"
+	p.Jobs = func(tier string) []Job {
+		js := inner(tier)
+		w, c, cyc := qw, 1, "1"
+		if tier == "thorough" {
+			w, c, cyc = tw, 2, "2"
+		}
+		return append(js, jobs("cluster", w, c, "bin={BIN},scen=diskfault,cycles="+cyc, time.Duration(tierN(tier, 20, 150))*time.Minute)...)
+	}
+	return p
 }
 
 // withCluster adds real-process cluster scenarios (engine E5) to a controller-engine plan.
